@@ -4,7 +4,9 @@ CrossHair (symbolic execution of the real parser/serialiser with z3) on harness/
 symbolically chosen kind (20 kinds: all pseudo-pushes, tag, jumps with jumpType, optional modifierDepth including 0,
 nested .data with a sub-assembly and a string entry, sourceList), with begin/end/source/modifierDepth unconstrained
 symbolic integers and the PUSH0 switch symbolic; the plain-text round trip in both renderings; and the numeric value of
-a constant under its three spellings with symbolic digits and leading zeros.  Every harness has a reachability twin or a
+a constant under its three spellings with symbolic digits and leading zeros; and a block read from JSON, rendered with
+to_plain and read back by the plain-text reader (an all-zero operand is a symbolic choice: the reader normalises it to "0",
+which must not turn a pseudo-push into PUSH0).  Every harness has a reachability twin or a
 native witness.  Multi-item layouts (n <= 3) are then enumerated natively through the same harness functions, which is
 validation of the single-item claim's independence from context, not a solver verdict."""
 import itertools
@@ -44,7 +46,8 @@ def main():
     rep = report.Report("C15", "other")
     gasol.import_repo()
     import concurrent.futures as cf
-    conds = [("json_roundtrip", 600), ("json_roundtrip_reach", 120), ("plain_roundtrip", 600), ("numeral_value", 600)]
+    conds = [("json_roundtrip", 900), ("json_roundtrip_reach", 120), ("plain_roundtrip", 600), ("numeral_value", 600),
+             ("plain_of_json", 900), ("plain_of_json_reach", 120)]
     if tier == "thorough":
         conds.append(("json_roundtrip2", 2400))
     with cf.ThreadPoolExecutor(max_workers=len(conds)) as ex:
@@ -85,23 +88,35 @@ def main():
         for ks in itertools.product(range(H.NK), repeat=n):
             k = list(ks) + [0] * (3 - n)
             for push0 in (True, False):
-                for has_md in (True, False):
+                for has_md, zero in ((True, False), (False, False), (False, True)):
                     layouts += 1
                     try:
-                        ok = H._json_body(n, k[0], k[1], k[2], 7, 9, 1, 0, 3, 10, has_md, 0, 1, push0, True, n % 2 == 0)
+                        ok = H._json_body(n, k[0], k[1], k[2], 7, 9, 1, 0, 3, 10, has_md, 0, 1, push0, True, n % 2 == 0, zero)
                     except Exception as e:
                         ok = False
                     if not ok:
                         bad += 1
-                        rep.violation("json-layout:%s:push0=%s:md=%s" % ([H.KINDS[x][0] for x in ks], push0, has_md),
-                                      "document with items %s does not round-trip" % [H.KINDS[x][0] for x in ks], {"kinds": ks})
+                        rep.violation("json-layout:%s:push0=%s:md=%s:zero=%s" % ([H.KINDS[x][0] for x in ks], push0, has_md, zero),
+                                      "document with items %s%s does not round-trip" % ([H.KINDS[x][0] for x in ks], " (all-zero operands)" if zero else ""),
+                                      {"kinds": ks})
+                    if n == 1:
+                        layouts += 1
+                        try:
+                            ok = H.plain_of_json(k[0], 7, 9, 1, 0, 3, 10, zero, has_md, 0, push0)
+                        except Exception as e:
+                            ok = False
+                        if not ok:
+                            rep.violation("plain-of-json:%s:push0=%s:zero=%s" % (H.KINDS[k[0]][0], push0, zero),
+                                          "item %s%s read from JSON is not read back from its plain rendering" % (H.KINDS[k[0]][0], " with an all-zero operand" if zero else ""),
+                                          {"kind": k[0]})
         for ks in itertools.product(range(H.NP), repeat=n):
             k = list(ks) + [0] * (3 - n)
             for push0 in (True, False):
                 for bn in (True, False):
                     layouts += 1
                     try:
-                        ok = H.plain_roundtrip(n, k[0], k[1], k[2], 0, 12, 7, push0, bn)
+                        ok = H.plain_roundtrip(n, k[0], k[1], k[2], 0, 12, 7, push0, bn) and \
+                            (n > 1 or H.plain_roundtrip(n, k[0], k[1], k[2], 0, 0, 0, push0, bn))
                     except Exception as e:
                         ok = False
                     if not ok:
@@ -119,7 +134,10 @@ def main():
                       "AsmBlock.to_plain / to_plain_with_byte_number"],
     }
     rep.assumptions = ["CrossHair bounds: one item per code section (two in the thorough tier), three symbolic hex digits with "
-                       "two of them fixed; documents beyond the bound are covered by native enumeration only"]
+                       "two of them fixed or all zero; documents beyond the bound are covered by native enumeration only",
+                       "to_plain does not render `tag` items and plain text carries no jumpType: the JSON -> plain -> block trip compares "
+                       "mnemonics and numeric operand values of the remaining items; to_plain_with_byte_number is claimed for blocks "
+                       "read from plain text (the only ones the tool writes with it)"]
     sys.exit(rep.finish())
 
 
